@@ -50,6 +50,16 @@ NOTES = {
     'C03-f': 'needs the sources=[...] form of with_store (several hot sources, each with its own pipeline, sharing one store): added as a C03 scenario with the protocol monitor on every boundary of every pipeline',
     'C09-f': 'NOT caught, deliberately: emit-before-persist in scan only shows under re-entrant delivery (a subscriber pushing the next item of the same key from inside its own on_next). That breaks the Rx contract that notifications are serialised; no property speaks about it, and the unchanged tree has other operators that are not re-entrant either',
     'C08-f': 'NOT caught, deliberately: needs a mux error raised inside the last tee_map branch that travels THROUGH the tee_map to a handler placed after it. C13 specifies handlers placed directly after the failing operator, C08 says nothing about errors (the unchanged tee_map forwards an upstream error once per branch)',
+    'C06-j': 'needs an impure split predicate (the change asks it twice on every item that opens a segment): a counting predicate with recorded answers added (as for group_by key mappers); the run model uses one answer per item',
+    'C15-j': 'needs more than 4 MiB through one length-prefix subscription with a chunk ending inside a payload: a long-stream scenario (3-13 MiB in fixed-size chunks, items generated inside the check) added to both tiers',
+    'C18-j': 'needs string fields whose values are instances of a subclass of str (a user class, numpy.str_): added',
+    'C01-j': 'needs a non-empty but false iterable as flat_map input (a one-element numpy array holding 0): numpy arrays [], [0], [0, 1] are generated as flat_map inputs now (their elements are numpy scalars and stay away from comparing/typed operators)',
+    'C09-j': 'needs a consumer that changes, in place, the list a *reduced* scan hands over for a key that received nothing, and a later lifetime of the slot: the reduced list accumulator is typed as owned by the consumer now and a dedicated C09 scenario (filter that empties lifetimes > scan(reduce) > in-place consumer under split/roll) was added',
+    'C07-j': 'needs a closing_mapper that is a callable object with a false truth value: added',
+    'C10-j': 'as built only the thorough tier saw it (equal-but-distinguishable neighbours such as 1, 1.0, True are rare in the streams); a mapper producing such values was added and the quick tier sees it',
+    'C05-j': 'needs window slot indices >= 2**20 (a quarter of a million groups under an overlapping roll): an ultra-wide scenario (70 000 / 270 000 groups) was added to the thorough tier of C05, next to the ultra-long single key',
+    'C14-j': 'NOT caught, deliberately: del_map (not among the operations the statement lists; group_by calls it only immediately before del_key of the same parent, where recycling the index is legitimate) hands its index back while the entry stays readable. Visible only by calling del_map on a parent that stays alive, which neither the statement nor any operator does',
+    'C02-j': 'caught by C07 (the time_split model); C02 generates time_split lifetimes too but its quick and thorough runs did not hit the timing relation (stale last timestamp from the previous window, closing item not included, inactive time-out)',
     'C11-i': 'needs a time-out of zero (a clean-up replaced `is not None` by a truth test): zero time-outs are generated now (the first item of a key then expires the window it has just opened: empty leading windows are typed accordingly)',
     'C05-i': 'NOT caught, deliberately: roll no longer restarts its stride grid after a *handled* key error. It needs a mux error that travels through roll to handlers that are not directly behind the failing operator (C13 specifies handlers placed directly after; C05 says nothing about errors); whether the grid restarts after such an error is not specified',
     'C19-i': 'as built caught by C16 only (several compressors alive at once, chunks interleaved by the seeded schedule); C19 now also writes two files at the same time from interleaved hot sources (one source split into two files) and reads both back',
